@@ -402,6 +402,8 @@ def run(ctx, report: Report) -> None:
 
     # ---- R4 --------------------------------------------------------------------------------------------
     r4 = report.rule('C04-R4', 'temporary matcher state is restored in the activation that changed it', floor=16)
+    from .sem import context_restore_table
+    context_restore_table(ctx, r4)
     n_swaps = 0
     for q, fn in mmod.functions.items():
         if not q.startswith('CSSMatch.') or q.endswith('.__init__') or q.count('.') != 1:
